@@ -32,11 +32,13 @@ import pfimport  # noqa: F401
 from pfimport import exc_enum
 from pipefunc import NestedPipeFunc, Pipeline
 
+import c09_values
 import mapgen
 import pipegen
 import terms
 
 PY = os.environ.get("VERIF_PYTHON", "/venv/bin/python")
+P_RICH = 0.35        # share of the generated histories whose argument values get representation freedom (harness/c09_values.py)
 OK_TWIN_ERR = (None, "UnusedParametersError")
 
 
@@ -138,7 +140,10 @@ def apply_step(p, step):
         with _quiet():
             if "pf_defaults" in step:
                 s = step["pf_defaults"]
-                p[_on(s["o"]) if len(s["o"]) > 1 else s["o"][0]].update_defaults({k: terms.dec(v) for k, v in s["d"]})
+                p[_on(s["o"]) if len(s["o"]) > 1 else s["o"][0]].update_defaults({k: c09_values.dec(v) for k, v in s["d"]})
+            elif "pl_defaults" in step:
+                s = step["pl_defaults"]                  # Pipeline.update_defaults, also with overwrite=True (every other default is dropped)
+                p.update_defaults({k: c09_values.dec(v) for k, v in s["d"]}, overwrite=bool(s.get("overwrite")))
             else:
                 raise ValueError(f"unknown step {step}")
     except Exception as e:  # noqa: BLE001
@@ -202,7 +207,8 @@ def first_failure(case, impl):
             return i, "cached pipeline returns another value than the uncached twin", "value"
         if step["call"]["full"] and c.get("full") != u.get("full"):
             return i, "full_output of the cached pipeline differs from the uncached twin", "value"
-        if prev is not None and not small and prev[1] == step["call"] and "err" not in prev[2]:
+        if prev is not None and not small and c09_values.call_key(prev[1]) == c09_values.call_key(step["call"]) and "err" not in prev[2]:
+            # equal ARGUMENTS: the same values, however they were built and in whatever order the keywords come
             first = prev[2]
             if not _sub_multiset(c["calls"], first["calls"]):
                 return i, f"an immediately repeated identical call executes {c['calls']}, the first one executed only {first['calls']}", "reexec"
@@ -254,6 +260,8 @@ def shrink(case, base, klass, budget=40):
 def judge_hist(ctx, stream, case, impl, base):
     """Record one history; a difference is re-run twice before it is reported (no flaky verdicts)."""
     ctx.record(case, nontrivial=nontrivial(impl))
+    for kind in case.get("rich") or []:
+        ctx.count(f"{stream}:rich-values:{kind}")
     ff = first_failure(case, impl)
     if ff is None:
         return True
@@ -383,6 +391,9 @@ def gen_history(rng, case, base, length, pick_out, mut_gen=None, p_mut=0.0, p_re
         hist.append({"call": c})
     if not any("call" in s for s in hist):
         return None
+    if rng.random() < P_RICH:
+        hist, styles = c09_values.richify_calls(rng, hist)
+        return dict(case, history=hist, rich=sorted(set(styles.values())))
     return dict(case, history=hist)
 
 
@@ -460,6 +471,13 @@ def stream_whole(ctx, base, deadline):
 # ---------------------------------------------------------------------------------------------- stream 2: PipeFunc.update_defaults
 def _gen_pf_defaults(rng, funcs):
     outs_all = pipegen.all_outputs({"funcs": funcs})
+    if rng.random() < 0.3:
+        roots = sorted({p for f in funcs for p, _ in f["params"] if p not in outs_all and p not in {b[0] for b in f["bound"]}})
+        if roots:
+            ks = rng.sample(roots, min(len(roots), rng.choice([1, 1, 2])))
+            tag = lambda k: {"s": f"pld:{k}:{rng.randint(0, 1)}"}      # noqa: E731
+            d = [[k, c09_values.wrap(rng.choice(list(c09_values.KINDS)), tag(k), 0) if rng.random() < 0.3 else tag(k)] for k in ks]
+            return {"pl_defaults": {"d": d, "overwrite": rng.random() < 0.5}}
     f = rng.choice(funcs)
     bound = {b[0] for b in f["bound"]}
     roots = [p for p, _ in f["params"] if p not in outs_all and p not in bound]
@@ -488,13 +506,15 @@ def stream_pf_defaults(ctx, base, deadline):
         if case is None:
             ctx.skip(f"{stream}:history-not-generated-or-mutation-refused")
             continue
-        if not any("pf_defaults" in s for s in case["history"]):
+        if not any("pf_defaults" in s or "pl_defaults" in s for s in case["history"]):
             ctx.skip(f"{stream}:no-mutation-drawn")
             continue
         made += 1
         impl = run_hist(case, base)
         ctx.count(f"{stream}:cache:{cfg_tag(cfg)}")
         for s, ob in zip(case["history"], impl.get("steps", [])):
+            if "pl_defaults" in s:
+                ctx.count(f"{stream}:pipeline-update_defaults:" + ("overwrite" if s["pl_defaults"]["overwrite"] else "merge"))
             if "pf_defaults" in s:
                 ctx.count(f"{stream}:update:" + ("unique-parameter" if s["pf_defaults"]["unique"] else "shared-parameter"))
                 if ob["mut"][0] and ob["mut"][0] == ob["mut"][1]:
@@ -610,8 +630,8 @@ def map_failure(case, impl):
 def run_map(case, base):
     c09 = _c09()
     impl = c09.run_map_case(case["desc"], case["cache"], case["mode"], base)
-    impl.pop("u3", None)
-    impl.pop("c3", None)
+    for k in ("u3", "c3", "u4", "c4"):
+        impl.pop(k, None)
     return impl
 
 
@@ -621,6 +641,10 @@ def stream_maps(ctx, base, deadline):
     stream = "ext:map-all-caches"
     for k in range(ctx.n(24, 300)):
         desc = c09.repeat_inputs(mapgen.gen_case(rng, max_funcs=3, kinds=["elem", "elem", "outer", "partial", "full", "scalar"], p_bound=0.0), rng)
+        if k % 2:
+            desc = c09.rich_map_inputs(desc, rng, p_rich=0.8)      # equal elements built in different ways (c09_values)
+            for kind in desc.get("c09_rich_kinds") or []:
+                ctx.count(f"{stream}:rich-values:{kind}")
         for cfg in MAP_CFGS:
             for mode in ("seq", "threads"):
                 if time.time() > deadline:
@@ -660,7 +684,7 @@ def stream_maps(ctx, base, deadline):
 
 # ---------------------------------------------------------------------------------------------- stream 5: shared DiskCache directory
 def _sig(call):
-    return json.dumps(sorted(call["kw"], key=lambda e: e[0]), sort_keys=True)
+    return json.dumps(sorted(c09_values.abstract_kw(call["kw"]), key=lambda e: e[0]), sort_keys=True)
 
 
 def shared_failure(case, twin, first, second):
@@ -885,7 +909,7 @@ def run_ext(ctx, base):
     for name, fn, share in shares:
         ts = time.time()
         spent += share
-        fn(ctx, base, t0 + total * spent)            # an unused share carries over to the next stream
+        _c09()._guarded(ctx, {"kind": f"ext:{name}"}, f"run the stream ext:{name}", fn, ctx, base, t0 + total * spent)   # an unused share carries over
         ctx.extra.setdefault("ext_wall_s", {})[name] = round(time.time() - ts, 2)
     ctx.extra["ext_wall_s"]["total"] = round(time.time() - t0, 2)
 
